@@ -3,6 +3,9 @@
 (* one trace per (observed node, storage key).  Every logged event must be the corresponding action of the  *)
 (* specification taken at the logged clock value and must reproduce the logged projection of the node:      *)
 (* the set of stored (value, expiry) pairs and the size of the secret window.                               *)
+(* The clock is in ms (Scale = 1000); Validity = 600000: a token is authorised for 600 s after a find-      *)
+(* response carried it, whatever the node's rotation timer did (RotatePeriod = 0: rotations are taken from  *)
+(* the log) - a store honoured with an older token sets the "auth" monitor.                                 *)
 EXTENDS DhtStore, Json, IOUtils, TLCExt
 
 Traces == JsonDeserialize(IOEnv.TRACE_FILE)
@@ -13,7 +16,7 @@ tvars == <<vars, tid, l>>
 Ev == Traces[tid].events
 
 TraceInit == /\ tid \in 1..Len(Traces) /\ l = 1
-             /\ secrets = <<1>> /\ issued = {} /\ storage = <<>> /\ clock = 0
+             /\ secrets = <<1>> /\ issued = {} /\ lastRot = 0 /\ storage = <<>> /\ clock = 0
              /\ closer = 0 /\ peers = {} /\ mon = {}
 
 Tok(e) == [a |-> e.tok.a, k |-> e.tok.k, ep |-> e.tok.ep, kind |-> e.tok.kind]
@@ -28,13 +31,13 @@ Matches(e) == /\ Range(storage') = Stored(e)
 (* time passes between events *)
 Advance == /\ l <= Len(Ev) /\ clock < Ev[l].t
            /\ clock' = Ev[l].t
-           /\ UNCHANGED <<secrets, issued, storage, closer, peers, mon, tid, l>>
+           /\ UNCHANGED <<secrets, issued, lastRot, storage, closer, peers, mon, tid, l>>
 
 (* store-peer requests: the peer table also shrinks by pinging (outside the property), so only the effect of *)
 (* the request itself is logged: `before` = the requester's key was already stored, `added` = it is now      *)
 PeerEvent(e) == /\ e.added = (CheckToken(e.a, e.k, Tok(e)) /\ e.t_is_own_mid /\ ~e.before)
                 /\ mon' = mon \cup (IF e.added /\ ~Authorised(e.a, e.k, Tok(e)) THEN {"peer-auth"} ELSE {})
-                /\ UNCHANGED <<secrets, issued, storage, clock, closer, peers>>
+                /\ UNCHANGED <<secrets, issued, lastRot, storage, clock, closer, peers>>
 
 Step == /\ l <= Len(Ev) /\ clock = Ev[l].t
         /\ LET e == Ev[l] IN
@@ -44,7 +47,7 @@ Step == /\ l <= Len(Ev) /\ clock = Ev[l].t
                                    /\ LET accept == WithinLimits(Batch(e)) /\ CheckToken(e.a, e.k, Tok(e)) IN
                                       /\ storage' = IF accept THEN AddAll(storage, Batch(e), Life(e.closer), clock) ELSE storage
                                       /\ mon' = mon \cup (IF accept /\ ~Authorised(e.a, e.k, Tok(e)) THEN {"auth"} ELSE {})
-                                      /\ UNCHANGED <<secrets, issued, clock, peers>>
+                                      /\ UNCHANGED <<secrets, issued, lastRot, clock, peers>>
                 \/ e.ev = "local"  /\ LocalStore(Val(e.v))
                 \/ e.ev = "clean"  /\ Clean
                 \/ e.ev = "peer"   /\ PeerEvent(e)
